@@ -1,14 +1,14 @@
 package main
 
 import (
-	"time"
-	"runtime"
-	"sync"
 	"fmt"
 	"math/rand"
 	"reflect"
+	"runtime"
 	"sort"
 	"strings"
+	"sync"
+	"time"
 
 	"github.com/mattn/anko/env"
 )
@@ -506,7 +506,11 @@ func streamEnvAPI(o *Out, r *rand.Rand, n int, thorough bool) {
 		name string
 		run  func(e *env.Env) interface{}
 	}{
-		{"DefineValue(x, zero Value); Get(x)", func(e *env.Env) interface{} { _ = e.DefineValue("x", reflect.Value{}); v, err := e.Get("x"); return fmt.Sprint(v, err) }},
+		{"DefineValue(x, zero Value); Get(x)", func(e *env.Env) interface{} {
+			_ = e.DefineValue("x", reflect.Value{})
+			v, err := e.Get("x")
+			return fmt.Sprint(v, err)
+		}},
 		{"DefineValue(x, zero Value); GetValue(x); String(); Copy; DeepCopy; Addr(x)", func(e *env.Env) interface{} {
 			_ = e.DefineValue("x", reflect.Value{})
 			_, _ = e.GetValue("x")
@@ -516,11 +520,32 @@ func streamEnvAPI(o *Out, r *rand.Rand, n int, thorough bool) {
 			_, _ = e.Addr("x")
 			return nil
 		}},
-		{"Define(n, 1); SetValue(n, zero Value); Get(n)", func(e *env.Env) interface{} { _ = e.Define("n", int64(1)); _ = e.SetValue("n", reflect.Value{}); v, err := e.Get("n"); return fmt.Sprint(v, err) }},
-		{"DefineGlobalValue(x, zero Value); Get(x)", func(e *env.Env) interface{} { _ = e.NewEnv().DefineGlobalValue("x", reflect.Value{}); v, err := e.Get("x"); return fmt.Sprint(v, err) }},
-		{"DefineValue(x, zero Value); GetEnvFromPath([x])", func(e *env.Env) interface{} { _ = e.DefineValue("x", reflect.Value{}); _, err := e.GetEnvFromPath([]string{"x"}); return err }},
-		{"DefineValue(x, zero Value); GetEnvFromPath([x y])", func(e *env.Env) interface{} { _ = e.DefineValue("x", reflect.Value{}); _, err := e.GetEnvFromPath([]string{"x", "y"}); return err }},
-		{"Define(m, (*Env)(nil)); GetEnvFromPath([m x])", func(e *env.Env) interface{} { _ = e.Define("m", (*env.Env)(nil)); _, err := e.GetEnvFromPath([]string{"m", "x"}); return err }},
+		{"Define(n, 1); SetValue(n, zero Value); Get(n)", func(e *env.Env) interface{} {
+			_ = e.Define("n", int64(1))
+			_ = e.SetValue("n", reflect.Value{})
+			v, err := e.Get("n")
+			return fmt.Sprint(v, err)
+		}},
+		{"DefineGlobalValue(x, zero Value); Get(x)", func(e *env.Env) interface{} {
+			_ = e.NewEnv().DefineGlobalValue("x", reflect.Value{})
+			v, err := e.Get("x")
+			return fmt.Sprint(v, err)
+		}},
+		{"DefineValue(x, zero Value); GetEnvFromPath([x])", func(e *env.Env) interface{} {
+			_ = e.DefineValue("x", reflect.Value{})
+			_, err := e.GetEnvFromPath([]string{"x"})
+			return err
+		}},
+		{"DefineValue(x, zero Value); GetEnvFromPath([x y])", func(e *env.Env) interface{} {
+			_ = e.DefineValue("x", reflect.Value{})
+			_, err := e.GetEnvFromPath([]string{"x", "y"})
+			return err
+		}},
+		{"Define(m, (*Env)(nil)); GetEnvFromPath([m x])", func(e *env.Env) interface{} {
+			_ = e.Define("m", (*env.Env)(nil))
+			_, err := e.GetEnvFromPath([]string{"m", "x"})
+			return err
+		}},
 		{"Define(m, (*Env)(nil)); GetEnvFromPath([m]) then Define on the result", func(e *env.Env) interface{} {
 			_ = e.Define("m", (*env.Env)(nil))
 			m, err := e.GetEnvFromPath([]string{"m"})
@@ -618,9 +643,23 @@ func streamEnvAPI(o *Out, r *rand.Rand, n int, thorough bool) {
 			}
 			return nil
 		}},
-		{"NewModule(m); Define(a, 1) in it; GetEnvFromPath([m a])", func(e *env.Env) interface{} { m, _ := e.NewModule("m"); _ = m.Define("a", 1); _, err := e.GetEnvFromPath([]string{"m", "a"}); return err }},
-		{"DefineType(T, nil); Type(T); GetTypeSymbols; String", func(e *env.Env) interface{} { _ = e.DefineType("T", nil); _, _ = e.Type("T"); e.GetTypeSymbols(); return e.String() }},
-		{"DefineReflectType(T, nil); Type(T)", func(e *env.Env) interface{} { _ = e.DefineReflectType("T", nil); t, err := e.Type("T"); return fmt.Sprint(t, err) }},
+		{"NewModule(m); Define(a, 1) in it; GetEnvFromPath([m a])", func(e *env.Env) interface{} {
+			m, _ := e.NewModule("m")
+			_ = m.Define("a", 1)
+			_, err := e.GetEnvFromPath([]string{"m", "a"})
+			return err
+		}},
+		{"DefineType(T, nil); Type(T); GetTypeSymbols; String", func(e *env.Env) interface{} {
+			_ = e.DefineType("T", nil)
+			_, _ = e.Type("T")
+			e.GetTypeSymbols()
+			return e.String()
+		}},
+		{"DefineReflectType(T, nil); Type(T)", func(e *env.Env) interface{} {
+			_ = e.DefineReflectType("T", nil)
+			t, err := e.Type("T")
+			return fmt.Sprint(t, err)
+		}},
 		{"Get / Set / Delete / Addr / Type of the empty name", func(e *env.Env) interface{} {
 			_, _ = e.Get("")
 			_ = e.Set("", 1)
@@ -630,7 +669,11 @@ func streamEnvAPI(o *Out, r *rand.Rand, n int, thorough bool) {
 			_ = e.Define("", 1)
 			return nil
 		}},
-		{"GetEnvFromPath(nil); GetEnvFromPath([\"\"])", func(e *env.Env) interface{} { _, _ = e.GetEnvFromPath(nil); _, err := e.GetEnvFromPath([]string{""}); return err }},
+		{"GetEnvFromPath(nil); GetEnvFromPath([\"\"])", func(e *env.Env) interface{} {
+			_, _ = e.GetEnvFromPath(nil)
+			_, err := e.GetEnvFromPath([]string{""})
+			return err
+		}},
 	} {
 		func() {
 			e := env.NewEnv()
